@@ -3,7 +3,7 @@
                                             table loaded from the observation copy;
                                             does the case satisfy the hypotheses of hdf5_roundtrip;
                                             for every later generation (the state of the table that was
-                                            loaded and is written again, given as 5th element):
+                                            loaded and is written again, 5th element: L [state; generated-by; date] each):
                                             L [written file; table loaded from it; hypotheses]]
    case  L [I 1; bytes]              -> the strict UTF-8 decoder on arbitrary bytes
    case  L [I 2; text]               -> escape / unescape of a category name *)
@@ -20,9 +20,10 @@ Definition run (t : Tree) : Tree :=
        eResult eLoaded (bind w (fun f => from_hdf5 f Samp));
        eResult eLoaded (bind w (fun f => from_hdf5 f Obs));
        eB (in_domainb st (tLZ (tnth t 2)) (tLZ (tnth t 3)));
-       L (map (fun t2 => let w2 := write_state t2 (tLZ (tnth t 2)) (tLZ (tnth t 3)) in
-                         L [eResult eH5 w2; eResult eLoaded (bind w2 (fun f => from_hdf5 f Samp));
-                            eB (in_domainb (tState t2) (tLZ (tnth t 2)) (tLZ (tnth t 3)))])
+       L (map (fun e => let t2 := tnth e 0 in let g2 := tLZ (tnth e 1) in let d2 := tLZ (tnth e 2) in
+                        let w2 := write_state t2 g2 d2 in
+                        L [eResult eH5 w2; eResult eLoaded (bind w2 (fun f => from_hdf5 f Samp));
+                           eB (in_domainb (tState t2) g2 d2)])
                (tL (tnth t 4)))]
   | 1%Z => eOpt eLZ (utf8_decode (tLZ (tnth t 1)))
   | _ => L [eLZ (utf8_encode (sanitize (tLZ (tnth t 1)))); eLZ (unsanitize (sanitize (tLZ (tnth t 1))))]
